@@ -31,7 +31,8 @@ RULE = (
     "data sets simulated by the harness from a drawn stable VAR (1-3 endogenous, order 1-3, 0-2 exogenous, intercept "
     "on/off, noise scale 0.1-2 or 0 = noise-free class, 20-60 fitted periods plus initial condition, optional padding "
     "outside the estimation span, up to 4 missing cells anywhere incl. the initial condition, 1-2 variants, "
-    "dof_correction on/off; separate classes with Minnesota/Mean prior dummy observations and with simulate() over the "
+    "dof_correction on/off; in half of the cases the object was estimated on other data and queried before (optionally "
+    "copied) and is then estimated again; separate classes with Minnesota/Mean prior dummy observations and with simulate() over the "
     "estimation span). Compared with numpy.linalg.lstsq on the harness's own stacked regressors over exactly the "
     "complete rows and with the harness's own companion form. Non-trivial iff order >= 2 or an exogenous regressor or "
     "a missing cell (and the case was not skipped for too few rows / conditioning)"
@@ -131,6 +132,8 @@ def _base_case(draw, kind):
         )
     else:
         case["nan_cells"] = []
+    # the same object has been estimated on other data before, and asked for its eigenvalues and moments in between
+    case["reestimate"] = draw(st.sampled_from([0, 0, 1, 2]))
     return case
 
 
@@ -192,6 +195,8 @@ def _classify(case):
     if case["kind"] == "priors":
         kinds = sorted(p["kind"] for p in case["priors"])
         labels.append("prior_" + "+".join(kinds))
+    if case.get("reestimate"):
+        labels.append("reestimated_object" + ("_copy" if case["reestimate"] == 2 else ""))
     nontrivial = case["p"] >= 2 or case["nx"] >= 1 or len(case["nan_cells"]) > 0
     return nontrivial, labels
 
@@ -424,7 +429,7 @@ def _make_prior_objects(ir, case):
 # estimation and its judgement
 # ---------------------------------------------------------------------------
 
-def _estimate(ir, case, db, first_win):
+def _estimate(ir, case, db, first_win, warm_db=None):
     n, p, nx, T, nv = case["n"], case["p"], case["nx"], case["T"], case["nv"]
     ynames = list(YNAMES[:n])
     xnames = list(XNAMES[:nx])
@@ -454,6 +459,21 @@ def _estimate(ir, case, db, first_win):
             tdb["res_" + YNAMES[j]] = ir.Series(start=first_win, values=np_.full((p + T, nv), 123.0 + j))
         tdb["bystander_"] = 7
         ekw["target_db"] = tdb
+    if warm_db is not None:
+        # an earlier estimation of the same object on other data, with every getter that may cache something;
+        # nothing of this warm-up is judged and its failures are ignored
+        try:
+            model.estimate(warm_db, span, **{k: v for k, v in ekw.items() if k != "target_db"})
+            for fn in (model.get_eigenvalues, model.get_mean, lambda: model.get_acov(up_to_order=1),
+                       model.get_system_matrices, lambda: model.simulate(warm_db, span)):
+                try:
+                    fn()
+                except Exception:  # noqa: BLE001
+                    pass
+            if case.get("reestimate") == 2:
+                model = model.copy()
+        except Exception:  # noqa: BLE001
+            model = api("RedVAR", ir.RedVAR, ynames, **ckw)
     try:
         out = model.estimate(db, span, **ekw)
     except Exception as exc:  # noqa: BLE001
@@ -677,8 +697,13 @@ def _run(case, want_simulate=False):
     n, p, nx, T, nv = case["n"], case["p"], case["nx"], case["T"], case["nv"]
     y, x = _make_data(case)
     db, first_win = _build_db(ir, case, y, x)
+    warm_db = None
+    if case.get("reestimate"):
+        # other data of the same shape: every series rescaled period by period and shifted (missing cells stay missing)
+        wave = 1.0 + 0.5 * np.sin(0.9 * np.arange(y.shape[-1]))
+        warm_db, _ = _build_db(ir, case, y * wave + 0.25, x)
     try:
-        model, out, span = _estimate(ir, case, db, first_win)
+        model, out, span = _estimate(ir, case, db, first_win, warm_db=warm_db)
     except _Underdetermined:
         return {"labels": ["rejected_fewer_complete_rows_than_regressors"], "nontrivial": False}
     L = p + T
